@@ -47,7 +47,7 @@ if [ "$applies" = yes ] && [ "$clean" = pass ] && [ "$mutant" = fail ] && [ "$ba
   cp "$MD/patch.diff" "$OUT/patch.diff"; cp "$demo" "$OUT/demo_test.go"; [ -f "$MD/README.md" ] && cp "$MD/README.md" "$OUT/README.md"
   q=$(/verif/tools/seedcheck.sh $ID "$MD" quick 2>&1 | grep '^RESULT')
   t=""
-  case "$q" in *"exit=1"*) ;; *) t=$(/verif/tools/seedcheck.sh $ID "$MD" thorough 2>&1 | grep '^RESULT');; esac
+  case "$q" in *"exit=1"*) ;; *) [ -z "${SEED_NO_THOROUGH:-}" ] && t=$(/verif/tools/seedcheck.sh $ID "$MD" thorough 2>&1 | grep '^RESULT');; esac
   python3 - "$ID" "$NAME" "$dir" "$tests" "$q" "$t" "$OUT" <<'PY'
 import json,sys,re,os
 ID,NAME,d,tests,q,t,out=sys.argv[1:8]
